@@ -786,6 +786,8 @@ func main() {
 			r = runEntriesOverlap(sc)
 		} else if sc.Kind == "close-during-sync" {
 			r = runCloseDuringSync(sc)
+		} else if sc.Kind == "close-during-async" {
+			r = runCloseDuringAsync(sc)
 		} else {
 			r = runScenario(sc)
 		}
@@ -831,6 +833,14 @@ func main() {
 		}
 		record(c, runCloseDuringSync(sc))
 	}
+	// an announce-triggered sync in flight when Close starts
+	for i, pt := range []string{"gate:block", "handle:locked", "async:handled", "event:latest-set", "async:taken"} {
+		sc := Scenario{Kind: "close-during-async", Seed: c.Seed, NPubs: 1, Rounds: [][]Action{{{Pub: 0, Kind: pt}}}}
+		for k := 0; k < 6+3*i; k++ {
+			sc.Listeners = append(sc.Listeners, ListenerSpec{Kind: []string{"fast", "stalled", "slow"}[k%3], RegRound: -1, CanRound: -1})
+		}
+		record(c, runCloseDuringAsync(sc))
+	}
 	// every option that changes how blocks are walked and counted, chains growing by 1..7
 	for seg := 1; seg <= 3; seg++ {
 		for _, kind := range []string{"explicit", "announce"} {
@@ -841,7 +851,7 @@ func main() {
 		record(c, runScenario(genOptions(c.Seed, "mixed", o[0], o[1], o[2])))
 	}
 	// long backlogs, around typical buffer sizes
-	sizes := []int{63, 64, 65, 128, 129}
+	sizes := []int{63, 64, 65, 128, 129, 300}
 	if c.Thorough() {
 		sizes = append(sizes, 257, 1000)
 	}
